@@ -445,4 +445,177 @@ theorem evalCosts_keptF (ctx : Ctx) (doc L : Nat) : ∀ (n cost : Nat) (t : MT) 
       · exact step _
     | found => exact step _
 
+
+/-! #### prune -/
+
+def PruneF (ctx : Ctx) (L : Nat) (t : MT) : Option MT → Prop
+  | Option.none => ∀ d, semF ctx d t = false
+  | some t' => t'.OkF ctx L ∧ (∀ d, semF ctx d t' = semF ctx d t) ∧ (t.stat.isSome = true → t' = t)
+
+def PruneAndF (ctx : Ctx) (L : Nat) (ch : MTs) : Option MTs → Prop
+  | Option.none => ∀ d, semAllF ctx d ch = false
+  | some ch' => MTs.OkFAll ctx L ch' ∧ (∀ d, semAllF ctx d ch' = semAllF ctx d ch) ∧ (MTs.AllSub ch → ch' = ch)
+
+theorem pruneF_map (ctx : Ctx) (L : Nat) (c t : MT) (f : MT → MT) (o : Option MT) (h : PruneF ctx L c o)
+    (hstat : t.stat = Option.none)
+    (h1 : ∀ d, semF ctx d t = semF ctx d c)
+    (h2 : ∀ c' d, semF ctx d (f c') = semF ctx d c')
+    (h3 : ∀ c', c'.OkF ctx L → (f c').OkF ctx L) : PruneF ctx L t (o.map f) := by
+  cases o with
+  | none => intro d; rw [h1]; exact h d
+  | some c' =>
+    exact ⟨h3 c' h.1, fun d => by rw [h2, h1]; exact h.2.1 d, fun hs => by rw [hstat] at hs; simp at hs⟩
+
+mutual
+theorem MT.prune_F (ctx : Ctx) (L : Nat) : (t : MT) → t.OkF ctx L → PruneF ctx L t t.prune
+  | .doc _ _ _ _, h => by simp only [MT.prune]; exact ⟨h, fun _ => rfl, fun _ => rfl⟩
+  | .brute _ _, h => by simp only [MT.prune]; exact ⟨h, fun _ => rfl, fun _ => rfl⟩
+  | .none, h => by simp only [MT.prune]; exact ⟨h, fun _ => rfl, fun _ => rfl⟩
+  | .re _ _ _ _ _ _ _, h => by simp only [MT.prune]; exact ⟨h, fun _ => rfl, fun _ => rfl⟩
+  | .sub s, h => by
+    simp only [MT.prune]
+    by_cases hn : s.it.isNone = true
+    · simp only [hn, if_true]
+      intro d
+      simp [semF, MT.sem, subSemX, hn]
+    · simp only [hn]
+      exact ⟨h, fun _ => rfl, fun _ => rfl⟩
+  | .and k ch, h => by
+    simp only [MT.prune]
+    have r := MTs.pruneAnd_F ctx L ch h
+    cases hp : MTs.pruneAnd ch with
+    | none => rw [hp] at r; intro d; simp only [semF, MT.sem]; exact r d
+    | some ch' =>
+      rw [hp] at r
+      exact ⟨r.1, fun d => by simp only [semF, MT.sem]; exact r.2.1 d, fun hs => by simp [MT.stat] at hs⟩
+  | .andLine k kin ch, h => by
+    simp only [MT.prune]
+    have r := MTs.pruneAnd_F ctx L ch h.1
+    cases hp : MTs.pruneAnd ch with
+    | none =>
+      rw [hp] at r
+      intro d
+      have := r d
+      simp only [semAllF] at this
+      simp only [semF, MT.sem, this, Bool.false_and]
+    | some ch' =>
+      rw [hp] at r
+      have e : ch' = ch := r.2.2 h.2
+      subst e
+      exact ⟨h, fun _ => rfl, fun hs => by simp [MT.stat] at hs⟩
+  | .or k ch, h => by
+    simp only [MT.prune]
+    have r := MTs.pruneOr_F ctx L ch h
+    generalize MTs.pruneOr ch = p at r
+    match p with
+    | .nil =>
+      intro d
+      have := r.2 d
+      simp only [semAnyF, MTs.semAny] at this
+      simp only [semF, MT.sem]; rw [← this]
+    | .cons x .nil =>
+      refine ⟨r.1.1, fun d => ?_, fun hs => by simp [MT.stat] at hs⟩
+      have := r.2 d
+      simp only [semAnyF, MTs.semAny, Bool.or_false] at this
+      simp only [semF, MT.sem]; exact this
+    | .cons x (.cons y z) =>
+      exact ⟨r.1, fun d => by simp only [semF, MT.sem]; exact r.2 d, fun hs => by simp [MT.stat] at hs⟩
+  | .not k c, h => by
+    simp only [MT.prune]
+    have r := MT.prune_F ctx L c h
+    cases hp : c.prune with
+    | none =>
+      rw [hp] at r
+      refine ⟨by simp [MT.OkF], fun d => ?_, fun hs => by simp [MT.stat] at hs⟩
+      have := r d
+      simp only [semF] at this
+      simp only [semF, MT.sem, this]; rfl
+    | some c' =>
+      rw [hp] at r
+      refine ⟨r.1, fun d => ?_, fun hs => by simp [MT.stat] at hs⟩
+      have := r.2.1 d
+      simp only [semF] at this
+      simp only [semF, MT.sem, this]
+  | .fileName k c, h => by
+    simp only [MT.prune]
+    exact pruneF_map ctx L c _ (MT.fileName k) _ (MT.prune_F ctx L c h) rfl (fun _ => rfl) (fun _ _ => rfl) (fun _ hc => hc)
+  | .boost k c, h => by
+    simp only [MT.prune]
+    exact pruneF_map ctx L c _ (MT.boost k) _ (MT.prune_F ctx L c h) rfl (fun _ => rfl) (fun _ _ => rfl) (fun _ hc => hc)
+  | .noVisit c, h => by
+    simp only [MT.prune]
+    exact pruneF_map ctx L c _ MT.noVisit _ (MT.prune_F ctx L c h) rfl (fun _ => rfl) (fun _ _ => rfl) (fun _ hc => hc)
+theorem MTs.pruneAnd_F (ctx : Ctx) (L : Nat) : (ch : MTs) → MTs.OkFAll ctx L ch → PruneAndF ctx L ch (MTs.pruneAnd ch)
+  | .nil, _ => by simp only [MTs.pruneAnd]; exact ⟨trivial, fun _ => rfl, fun _ => rfl⟩
+  | .cons h t, hh => by
+    simp only [MTs.pruneAnd]
+    have rh := MT.prune_F ctx L h hh.1
+    have rt := MTs.pruneAnd_F ctx L t hh.2
+    cases hp : h.prune with
+    | none =>
+      rw [hp] at rh
+      intro d
+      have := rh d
+      simp only [semF] at this
+      simp only [semAllF, MTs.semAll, this, Bool.false_and]
+    | some h' =>
+      rw [hp] at rh
+      cases hq : MTs.pruneAnd t with
+      | none =>
+        rw [hq] at rt
+        intro d
+        have := rt d
+        simp only [semAllF] at this
+        simp only [semAllF, MTs.semAll, this, Bool.and_false]
+      | some t' =>
+        rw [hq] at rt
+        simp only [Option.map]
+        refine ⟨⟨rh.1, rt.1⟩, fun d => ?_, fun hs => ?_⟩
+        · have a := rh.2.1 d; have b := rt.2.1 d
+          simp only [semF, semAllF] at a b
+          simp only [semAllF, MTs.semAll, a, b]
+        · cases h with
+          | sub s =>
+            have e1 : h' = .sub s := rh.2.2 (by simp [MT.stat])
+            have e2 : t' = t := rt.2.2 hs
+            rw [e1, e2]
+          | _ => simp [MTs.AllSub] at hs
+theorem MTs.pruneOr_F (ctx : Ctx) (L : Nat) : (ch : MTs) → MTs.OkFAll ctx L ch →
+    MTs.OkFAll ctx L (MTs.pruneOr ch) ∧ ∀ d, semAnyF ctx d (MTs.pruneOr ch) = semAnyF ctx d ch
+  | .nil, _ => ⟨trivial, fun _ => rfl⟩
+  | .cons h t, hh => by
+    simp only [MTs.pruneOr]
+    have rh := MT.prune_F ctx L h hh.1
+    have rt := MTs.pruneOr_F ctx L t hh.2
+    cases hp : h.prune with
+    | none =>
+      rw [hp] at rh
+      refine ⟨rt.1, fun d => ?_⟩
+      have a := rh d; have b := rt.2 d
+      simp only [semF, semAnyF] at a b
+      simp only [semAnyF, MTs.semAny, a, b, Bool.false_or]
+    | some h' =>
+      rw [hp] at rh
+      refine ⟨⟨rh.1, rt.1⟩, fun d => ?_⟩
+      have a := rh.2.1 d; have b := rt.2 d
+      simp only [semF, semAnyF] at a b
+      simp only [semAnyF, MTs.semAny, a, b]
+end
+
+/-- the loop hypotheses hold for every modelled tree -/
+theorem loopHyp_full (ctx : Ctx) (hw : ctx.WF) (t0 : MT) :
+    LoopHyp ctx (fun d => semF ctx d t0) (fun L t => t.OkF ctx L ∧ ∀ d, semF ctx d t = semF ctx d t0) where
+  next := by
+    intro L t ⟨h1, h2⟩
+    have k := MT.nextDoc_keptF ctx L t h1
+    refine ⟨fun d hL hd => ?_, k.ok, fun d => by rw [k.sem d, h2 d]⟩
+    have := MT.nextDoc_sound (subSemX ctx) (lineSemC ctx) L t (MT.okF_cur ctx hw L t h1) d hL hd
+    rw [← h2 d]; exact this
+  prep := by
+    intro L t nd ⟨h1, h2⟩ hL hnd
+    have p := MT.prepare_okF ctx hw L nd hL hnd t h1
+    refine ⟨by rw [p.val, h2 nd], ?_⟩
+    have k := evalCosts_keptF ctx nd (nd + 1) 4 0 (t.prepare nd) [] p.ok
+    exact ⟨k.ok, fun d => by rw [k.sem d, p.sem d, h2 d]⟩
+
 end ZoektModel.C01
